@@ -9,7 +9,7 @@ Local Open Scope Z_scope.
 Theorem C07_abort_ends_program :
   forall F binop (pre : list expr) (C : ctx) (post : list expr) (m : option expr) (s s0 s1 : state)
          (msg : option bytes) (s2 : state),
-  seq F binop pre s = Some s0 -> reach F binop C s0 = Some s1 ->
+  root_ok s -> seq F binop pre (rooted s) = Some s0 -> reach F binop C s0 = Some s1 ->
   match m with
   | None => msg = None /\ s2 = s1
   | Some me => exists b, eval F binop me s1 = (inl (VBytes b), s2) /\ msg = Some b
@@ -52,10 +52,10 @@ Proof. intros A B step pre. exact (loop_first_failure step pre). Qed.
 Print Assumptions C07_loop_stops_at_first_failure.
 
 Example C07_example :
-  let s := mkState [] (VObj [(hx "61", VInt 1)]) (VObj []) in
-  run F_inst binop_inst
+  let s := st0 [] (VObj [(hx "61", VInt 1)]) (VObj []) in
+  run_core
     [EAssignInf (TVar (hx "78") []) (TVar (hx "65") [])
        (EBlock [EOp OErr (EBlock [EAbort (Some (ELit (VBytes (hx "6d"))))]) (ELit (VInt 3))]) (VInt 0);
      EAssign (TExt PEvent [SField (hx "7a")]) (ELit (VInt 1))] s
-  = (Aborted (Some (hx "6d")), s).
+  = (Aborted (Some (hx "6d")), [], VObj [(hx "61", VInt 1)], VObj []).
 Proof. vm_compute. reflexivity. Qed.
